@@ -562,6 +562,29 @@ pub fn judge_graph(g: &Graph, ptrw: usize, emit: bool) -> (Vec<(String, String)>
     (bad, accepted, mods)
 }
 
+/// Programs that refer to GENERATED vftable structs by name (by pointer, by value, from
+/// signatures, across waiting types). Shared by C10 (each must build under every work-list
+/// order) and C09 (every order, repetition and process must give the same result).
+pub fn generated_table_programs() -> Vec<(&'static str, &'static str)> {
+    vec![
+        ("field-pointer-to-later-table", "pub type A { pub t: *const BVftable, }\npub type B { vftable { pub fn v(&self); }, }"),
+        ("signature-pointer-to-later-table", "pub type A { pub x: *const u8, }\nimpl A { #[address(0x1000)] pub fn f(&self, p: *const BVftable) -> *mut BVftable; }\npub type B { vftable { pub fn v(&self); }, }"),
+        ("two-owners-waiting-for-each-other", "pub type Foo { vftable { pub fn a(&self); }, pub x: *const u8, }\nimpl Foo { #[address(0x1000)] pub fn f(&self, p: *const BarVftable); }\npub type Bar { vftable { pub fn b(&self, q: *const FooVftable); }, pub t: *const FooVftable, }"),
+        ("three-owners-in-a-ring", "pub type A { vftable { pub fn a(&self); }, pub o: *const BVftable, }\npub type B { vftable { pub fn b(&self); }, pub o: *const CVftable, }\npub type C { vftable { pub fn c(&self) -> *const AVftable; }, }\nimpl A { #[address(0x1000)] pub fn f(&self, p: *const CVftable); }\nimpl B { #[address(0x1040)] pub fn f(&self) -> *const AVftable; }"),
+        ("embedded-type-points-to-embedders-table", "pub type Foo { vftable { pub fn f(&self); }, pub bar: Bar, }\npub type Bar { pub v: *const FooVftable, }"),
+        ("own-table-by-value", "pub type A { vftable { pub fn f(&self); pub fn g(&self); }, pub v: AVftable, }"),
+        ("own-table-behind-pointer", "pub type A { vftable { pub fn f(&self, t: *const AVftable); }, pub v: *const AVftable, }"),
+        ("table-of-base-by-name", "pub type B { vftable { pub fn f(&self); }, }\npub type D { #[base] pub base: B, pub t: *const BVftable, }\npub type U { pub d: D, pub t: [*const BVftable; 2], }"),
+        ("table-of-a-waiting-type-by-value", "pub type A { pub v: BVftable, }\npub type B { vftable { pub fn h(&self); }, pub a: A, }"),
+        ("tables-by-value-in-a-chain", "pub type A { pub v: [BVftable; 2], }\npub type B { vftable { pub fn h(&self); pub fn i(&self); }, pub c: C, }\npub type C { pub t: AVftable2, }\npub type AVftable2 { pub z: *const u8, }"),
+        ("extern-value-of-table-pointer", "pub type B { vftable { pub fn f(&self); }, }\n#[address(0x7000)] pub extern g_table: *const BVftable;"),
+        // the embedder of a table and the table's owner wait for each other: a round may only
+        // produce the generated struct and resolve nothing
+        ("owner-embeds-the-embedder-of-its-table", "pub type Node { vftable { pub fn poke(&self, a: i32) -> i32; }, pub holder: Holder, }\npub type Holder { pub table: NodeVftable, }"),
+        ("owner-embeds-array-of-embedders", "pub type Node { vftable { pub fn a(&self); pub fn b(&self); }, pub hs: [Holder; 2], pub t: Tail, }\npub type Holder { pub table: NodeVftable, }\npub type Tail { pub h: Holder, pub p: *const Node, }"),
+    ]
+}
+
 pub fn run_c10(ctx: &mut Ctx) {
     ctx.rule = "random dependency graphs over 2-12 types and 0-2 enums in 1-4 modules (nested paths, mutual module imports): forward/backward references, pointer cycles, by-value chains up to depth 12, by-value cycles of length 1-5 (direct, via arrays, via bases), undefined names in fields (by value, behind pointers, in arrays), enum bases, impl/virtual function parameters and return types, extern values; layouts valid by construction (explicit 8-aligned addresses from the reference sizes); exhaustive: all 19683 digraphs on 3 types with edge labels {none, by-value, pointer}. The build verdict, the list in the non-termination error, the registry, the emitted items/signatures and the hook trace (resolution order vs by-value dependencies, no re-resolution, progress per iteration, iterations <= items+1) are compared with the reference. non-trivial = graph with >=4 types and >=1 forward by-value edge, or containing a defect; distinct by structural hash".into();
     let seed = ctx.seed;
@@ -602,19 +625,7 @@ pub fn run_c10(ctx: &mut Ctx) {
     // structs generated for `vftable` blocks are counted, and nothing embeds itself by value,
     // so each program must build under every order in which the work list is attempted
     {
-        let programs: Vec<(&str, &str)> = vec![
-            ("field-pointer-to-later-table", "pub type A { pub t: *const BVftable, }\npub type B { vftable { pub fn v(&self); }, }"),
-            ("signature-pointer-to-later-table", "pub type A { pub x: *const u8, }\nimpl A { #[address(0x1000)] pub fn f(&self, p: *const BVftable) -> *mut BVftable; }\npub type B { vftable { pub fn v(&self); }, }"),
-            ("two-owners-waiting-for-each-other", "pub type Foo { vftable { pub fn a(&self); }, pub x: *const u8, }\nimpl Foo { #[address(0x1000)] pub fn f(&self, p: *const BarVftable); }\npub type Bar { vftable { pub fn b(&self, q: *const FooVftable); }, pub t: *const FooVftable, }"),
-            ("three-owners-in-a-ring", "pub type A { vftable { pub fn a(&self); }, pub o: *const BVftable, }\npub type B { vftable { pub fn b(&self); }, pub o: *const CVftable, }\npub type C { vftable { pub fn c(&self) -> *const AVftable; }, }\nimpl A { #[address(0x1000)] pub fn f(&self, p: *const CVftable); }\nimpl B { #[address(0x1040)] pub fn f(&self) -> *const AVftable; }"),
-            ("embedded-type-points-to-embedders-table", "pub type Foo { vftable { pub fn f(&self); }, pub bar: Bar, }\npub type Bar { pub v: *const FooVftable, }"),
-            ("own-table-by-value", "pub type A { vftable { pub fn f(&self); pub fn g(&self); }, pub v: AVftable, }"),
-            ("own-table-behind-pointer", "pub type A { vftable { pub fn f(&self, t: *const AVftable); }, pub v: *const AVftable, }"),
-            ("table-of-base-by-name", "pub type B { vftable { pub fn f(&self); }, }\npub type D { #[base] pub base: B, pub t: *const BVftable, }\npub type U { pub d: D, pub t: [*const BVftable; 2], }"),
-            ("table-of-a-waiting-type-by-value", "pub type A { pub v: BVftable, }\npub type B { vftable { pub fn h(&self); }, pub a: A, }"),
-            ("tables-by-value-in-a-chain", "pub type A { pub v: [BVftable; 2], }\npub type B { vftable { pub fn h(&self); pub fn i(&self); }, pub c: C, }\npub type C { pub t: AVftable2, }\npub type AVftable2 { pub z: *const u8, }"),
-            ("extern-value-of-table-pointer", "pub type B { vftable { pub fn f(&self); }, }\n#[address(0x7000)] pub extern g_table: *const BVftable;"),
-        ];
+        let programs = generated_table_programs();
         let mut built = 0u64;
         for (name, text) in &programs {
             let m = pyxis::parser::parse_str(text).unwrap_or_else(|e| panic!("C10 program {name} does not parse: {e:?}"));
